@@ -220,7 +220,12 @@ class C05(Prop):
                        st.sampled_from(["time-name", "time-name", "other-name", "prev-name"])).map(
             lambda t: {"markov": {"sem": t[0], "duration": t[1], "names": list(t[2]), "npairs": t[3], "dep_time": t[4], "style": t[5], "time": t[6], "a": t[7], "b": t[8], "capture": t[9]},
                        "ast": ("num", 0.0, "real"), "mode": "eager"})
-        return st.one_of(main, main, main, main, main, main, main, main, main, main, main, hist, fac, mk)
+        # the Scatter binder: index expressions that are bare reduced variables (diagonal embedding / pure renaming) or index
+        # tensors over the reduced variable, built lazily or with a lazy source
+        sc = st.tuples(st.sampled_from(["k", "n", "i", "zb"]), st.sampled_from(["diag", "diag", "rename", "index", "diag_index"]), st.sampled_from(["lazy", "reflect", "eager-lazy-source", "eager"]),
+                       st.integers(0, 9972), st.booleans()).map(
+            lambda t: {"scatter": {"binder": t[0], "shape": t[1], "style": t[2], "a": t[3], "batch": t[4]}, "ast": ("num", 0.0, "real"), "mode": "eager"})
+        return st.one_of(main, main, main, main, main, main, main, main, main, main, main, hist, fac, mk, sc)
 
     # open known finding: lazily built Approximate leaks mangled names
     known_predicates = {
@@ -239,6 +244,8 @@ class C05(Prop):
             return f"[factory] {case['factory']}"
         if "markov" in case:
             return f"[markov] {case['markov']}"
+        if "scatter" in case:
+            return f"[scatter] {case['scatter']}"
         return f"[{case['mode']}] {show(case['ast'])}"
 
     def signature(self, case):
@@ -248,10 +255,12 @@ class C05(Prop):
             return "factory|" + case["factory"]["style"]
         if "markov" in case:
             return "markov|" + case["markov"]["style"]
+        if "scatter" in case:
+            return "scatter|" + case["scatter"]["style"]
         return ast_signature(case["ast"])
 
     def shrink_candidates(self, case):
-        if "factory" in case or "markov" in case:
+        if "factory" in case or "markov" in case or "scatter" in case:
             return
         if "history" in case:
             h = case["history"]
@@ -390,6 +399,73 @@ class C05(Prop):
         if fresh in (i, j):
             stt.mark_nontrivial(case_hash(f))
 
+    def check_scatter(self, sc, stt):
+        """Scatter binds its reduced variables.  destin[i, j, ...] = sum_k [i == e1(k)] [j == e2(k)] source[k, ...] whatever the
+        binder is called, with no binder among the inputs, also when an index expression is the bare reduced variable."""
+        import itertools
+        from collections import OrderedDict
+
+        import funsor.interpretations as I
+        from funsor import Bint, Real, Tensor, Variable, ops
+        from funsor.interpreter import reinterpret
+        from funsor.terms import Scatter
+        from vf.build import eval_at
+
+        kname, shape, style = sc["binder"], sc["shape"], sc["style"]
+        n = 3
+        stt.count("scatter:" + shape + ":" + style)
+        k = Variable(kname, Bint[n])
+        src_inputs = OrderedDict([(kname, Bint[n])])
+        if sc["batch"]:
+            src_inputs["u"] = Bint[2]
+        data = 0.25 * (1 + (np.arange(n * (2 if sc["batch"] else 1)) * 5 + sc["a"]) % 8).reshape((n, 2) if sc["batch"] else (n,))
+        perm = [(sc["a"] + 1 + j) % n for j in range(n)] if sc["a"] % 2 else [n - 1 - j for j in range(n)]
+        idx = Tensor(np.asarray(perm, dtype=np.int64), OrderedDict([(kname, Bint[n])]), n)
+        dests = {"diag": [("di", k), ("dj", k)], "rename": [("di", k)], "index": [("di", idx)], "diag_index": [("di", k), ("dj", idx)]}[shape]
+        fmap = {"diag": [lambda v: v, lambda v: v], "rename": [lambda v: v], "index": [lambda v: perm[v]], "diag_index": [lambda v: v, lambda v: perm[v]]}[shape]
+
+        def run():
+            source = Tensor(data, src_inputs)
+            if style == "eager-lazy-source":
+                source = source * Variable("w", Real)
+            return Scatter(ops.add, tuple(dests), source, frozenset({k}))
+
+        try:
+            if style in ("lazy", "reflect"):
+                with getattr(I, style):
+                    t = run()
+            else:
+                t = run()
+        except Exception as e:
+            raise Decline("scatter-build-raised:" + innermost_funsor_frame(e))
+        expected = {d for d, e_ in dests} | ({"u"} if sc["batch"] else set()) | ({"w"} if style == "eager-lazy-source" else set())
+        if any("__BOUND" in n_ for n_ in t.inputs) or not set(t.inputs) <= expected or (style != "eager" and set(t.inputs) != expected):
+            raise Violation("scatter-inputs", f"Scatter inputs {list(t.inputs)} expected {sorted(expected)}: {sc}")
+        try:
+            r = reinterpret(t) if style in ("lazy", "reflect") else t
+            if style == "eager-lazy-source":
+                r = r(w=Tensor(np.asarray(1.5)))
+        except Exception as e:
+            raise Decline("scatter-evaluate-raised:" + innermost_funsor_frame(e))
+        scale = 1.5 if style == "eager-lazy-source" else 1.0
+        names = [d for d, e_ in dests] + (["u"] if sc["batch"] else [])
+        for pidx in itertools.product(*[range(n) for _ in dests], *([range(2)] if sc["batch"] else [])):
+            pt = dict(zip(names, pidx))
+            want = 0.0
+            for v in range(n):
+                if all(f_(v) == pt[d] for f_, (d, e_) in zip(fmap, dests)):
+                    want += scale * float(data[(v, pt["u"])] if sc["batch"] else data[v])
+            try:
+                got = eval_at(r, {k_: v_ for k_, v_ in pt.items() if k_ in r.inputs})
+            except Decline:
+                raise
+            except Exception as e:
+                raise Decline("scatter-binding-raised:" + innermost_funsor_frame(e))
+            if not close(got, want):
+                raise Violation("scatter-value", f"at {pt}: {np.asarray(got).tolist()} expected {want} (binder {kname}): {sc}")
+        stt.count("completed")
+        stt.mark_nontrivial(case_hash({"scatter": sc}))
+
     def check_markov(self, mk, stt):
         """MarkovProduct binds the time variable and the step names it drops.  The value must not depend on which names the
         caller picks for the (prev, curr) pairs or for time, and a value substituted later for a free batch input may
@@ -499,6 +575,8 @@ class C05(Prop):
             return self.check_factory(case["factory"], stt)
         if "markov" in case:
             return self.check_markov(case["markov"], stt)
+        if "scatter" in case:
+            return self.check_scatter(case["scatter"], stt)
         node, mode = case["ast"], case["mode"]
         free = set(typeof(node)[0])
         binders = binder_names(node)
